@@ -114,12 +114,31 @@ def chain(acc, name, order, ident, read_code, start, cfg):
 
 def explore_identity(acc, name, items):
     ident = dict((i, v.encode()) for i, v in items)
-    for order in ('asc', 'desc', 'reconf', 'update'):
+    for order in ('asc', 'desc', 'reconf', 'update', 'props', 'bytes'):
         reset.control_block()
         if order == 'asc':
             reset.set_identity(items)
         elif order == 'desc':
             reset.set_identity(list(reversed(items)))
+        elif order == 'props':
+            # objects 0-6 configured through the named properties AFTER the identity has been read once
+            from pymodbus.device import ModbusControlBlock
+            from pymodbus.mei_message import ReadDeviceInformationRequest
+            idn = ModbusControlBlock().Identity
+            reset.set_identity([(i, v) for i, v in items if i > 6] + [(i, 'old') for i, _ in items if i <= 6] + [(4, 'withdrawn-later')])
+            for rc0 in (1, 2, 3):
+                try:
+                    ReadDeviceInformationRequest(rc0, 0).execute(None)
+                except Exception:   # noqa
+                    pass
+            names = ['VendorName', 'ProductCode', 'MajorMinorRevision', 'VendorUrl', 'ProductName', 'ModelName', 'UserApplicationName']
+            want = dict(items)
+            for i, nm in enumerate(names):
+                setattr(idn, nm, want.get(i, ''))
+        elif order == 'bytes':
+            # values held as byte strings, unpopulated objects as empty byte strings
+            want = dict(items)
+            reset.set_identity([(i, want.get(i, '').encode()) for i in range(7)] + [(i, v.encode()) for i, v in items if i > 6])
         elif order == 'update':
             # configured the way servers do it, through update(): an earlier, larger configuration, objects
             # withdrawn again by blanking them, then the values of this identity
